@@ -39,29 +39,29 @@ NONTRIVIAL_RULE = {
 
 ASSUMPTIONS = [
     "generated histories respect the asserted preconditions of the library (DESIGN.md section 3): calls only on active machines, ids < N, no no-arg succeed()/fail() from the root head, no veto of a redirected request during activation (counted as excluded_activation_veto)",
-    "configuration space sampled by a fixed zoo of 13 machine types (N 1..33, head/headless, automatic/manual, 8 payload types, L 1..7, capacities 1..254, 4 context kinds, 0..3 injections)",
+    "configuration space sampled by a fixed zoo of 15 machine types (N 1..33, head/headless, automatic/manual, 8 payload types, L in {1,2,3,4,5,7,255}, capacities 1..254, 4 context kinds, 0..3 injections)",
     "search never establishes absence; counts below are what this run generated and executed",
 ]
 
 # cfgs with alignment >= 16 payloads (6, 9), injections (1,3,5,6,8,12), payload (all but 0,4,10,11)
-ALL_CFGS = list(range(13))
+ALL_CFGS = list(range(15))
 ZOO = {
-    1: dict(profiles=["general", "guards", "serial"], quick=240000, thorough=4000000),
-    2: dict(profiles=["general", "guards"], quick=240000, thorough=4000000),
-    3: dict(profiles=["guards", "general"], quick=240000, thorough=4000000),
-    4: dict(profiles=["guards"], quick=200000, thorough=4000000),
-    5: dict(profiles=["phases", "general"], quick=200000, thorough=3000000),
-    6: dict(profiles=["general", "guards", "plans"], quick=240000, thorough=4000000, probes=["const_plan"]),
-    7: dict(profiles=["general", "guards", "plans"], quick=240000, thorough=4000000, cfgs=[1, 2, 3, 5, 6, 7, 8, 9, 12], san=20000),
-    8: dict(profiles=["plans"], quick=300000, thorough=6000000),
-    9: dict(profiles=["plans"], quick=200000, thorough=4000000, cfgs=[0, 1, 3, 4, 6, 7, 8, 9, 11], san=20000),
-    10: dict(profiles=["plans"], quick=200000, thorough=4000000, probes=["plan_firstlast"]),
-    11: dict(profiles=["replica", "general", "guards"], quick=240000, thorough=4000000),
-    12: dict(profiles=["serial"], quick=200000, thorough=3000000),
-    15: dict(profiles=["general", "phases"], quick=200000, thorough=3000000, cfgs=[1, 3, 5, 6, 8, 12]),
-    16: dict(profiles=["logging"], quick=120000, thorough=2000000, fs=["ALL", "VERBOSE"]),
-    17: dict(profiles=["fork", "general"], quick=120000, thorough=2000000, san=20000),
-    18: dict(profiles=["general", "plans", "guards"], quick=90000, thorough=1500000, san=30000),
+    1: dict(profiles=["general", "guards", "serial"], quick=720000, thorough=8640000),
+    2: dict(profiles=["general", "guards"], quick=720000, thorough=8640000),
+    3: dict(profiles=["guards", "general"], quick=720000, thorough=8640000),
+    4: dict(profiles=["guards"], quick=600000, thorough=7200000),
+    5: dict(profiles=["phases", "general"], quick=600000, thorough=7200000),
+    6: dict(profiles=["general", "guards", "plans"], quick=720000, thorough=8640000, probes=["const_plan"]),
+    7: dict(profiles=["general", "guards", "plans"], quick=720000, thorough=8640000, cfgs=[1, 2, 3, 5, 6, 7, 8, 9, 12, 14], san=20000),
+    8: dict(profiles=["plans"], quick=900000, thorough=10800000),
+    9: dict(profiles=["plans"], quick=600000, thorough=7200000, cfgs=[0, 1, 3, 4, 6, 7, 8, 9, 11, 13], san=20000),
+    10: dict(profiles=["plans"], quick=600000, thorough=7200000, probes=["plan_firstlast"]),
+    11: dict(profiles=["replica", "general", "guards"], quick=720000, thorough=8640000),
+    12: dict(profiles=["serial"], quick=600000, thorough=7200000),
+    15: dict(profiles=["general", "phases"], quick=600000, thorough=7200000, cfgs=[1, 3, 5, 6, 8, 12]),
+    16: dict(profiles=["logging"], quick=360000, thorough=4320000, fs=["ALL", "VERBOSE"]),
+    17: dict(profiles=["fork", "general"], quick=360000, thorough=4320000, san=20000),
+    18: dict(profiles=["general", "plans", "guards"], quick=270000, thorough=3240000, san=30000),
 }
 MAX_SIZE = {"quick": 30, "thorough": 45}
 
